@@ -226,7 +226,24 @@ void CONmtModeChange(CO_NMT *nmt, CO_MODE mode)
     }
 }
 void CONmtResetRequest(CO_NMT *nmt, CO_NMT_RESET r) { (void)nmt; printf("cb resetreq %d\n", (int)r); }
-void CONmtHbConsEvent(CO_NMT *nmt, uint8_t id)      { (void)nmt; printf("cb hbevent %u %u\n", id, Tick); }
+/* "hbeventcb <sub> <v1> <v2>": the next heartbeat event makes the application re-configure entry 1016h:<sub> from inside the callback
+ * (sub > 0), or reset the communication from there (sub = -1: "monitored node lost, so reset communication") */
+static int HecSub; static uint32_t HecV1, HecV2;
+void CONmtHbConsEvent(CO_NMT *nmt, uint8_t id)
+{
+    printf("cb hbevent %u %u\n", id, Tick);
+    if (HecSub != 0) {
+        int sub = HecSub; HecSub = 0;
+        if (sub > 0) {
+            CO_ERR e1 = CODictWrLong(&nmt->Node->Dict, CO_DEV(0x1016, sub), HecV1);
+            CO_ERR e2 = (HecV2 != HecV1) ? CODictWrLong(&nmt->Node->Dict, CO_DEV(0x1016, sub), HecV2) : CO_ERR_NONE;
+            printf("cb hbrewrite %d %d %d\n", sub, (int)e1, (int)e2);
+        } else {
+            printf("cb hbreset\n");
+            CONmtReset(nmt, CO_RESET_COM);
+        }
+    }
+}
 /* "hbchangecb <sub> <v1> <v2>": the next state change notification makes the application re-configure entry 1016h:<sub> from inside
  * the callback (v1, then v2 - a new time for a monitored node needs the deactivation first) */
 static int HccSub; static uint32_t HccV1, HccV2;
@@ -288,9 +305,18 @@ void COTpdoReadData(CO_IF_FRM *f, uint8_t pos, uint8_t size, CO_OBJ *obj)
 
 static void app_tmr(void *arg)  { printf("cb apptmr %d %u\n", (int)((int *)arg - AppTag), Tick); }
 static uint32_t CbTmrStart; static int CbTmrTag = -1;     /* csdocbtimer: the completion callback starts an application timer */
+/* csdocbreq <timeout>: the completion callback requests the next transfer on the same client (chained requests); csdocbemcy: it
+ * registers an emergency ("SDO transfer failed") */
+static uint32_t CbReqTmo; static int CbReqRes = -1; static int CbEmcy; static uint8_t CbReqBuf[4];
 static void csdo_cb(CO_CSDO *c, uint16_t idx, uint8_t sub, uint32_t code)
 {
     printf("cb csdo %d %x %u %x %u\n", (int)(c - Node->CSdo), idx, sub, code, Tick);
+    if (CbReqTmo > 0) {
+        uint32_t tmo = CbReqTmo; CbReqTmo = 0;
+        CbReqRes = (int)COCSdoRequestUpload(c, CO_DEV(0x2000, 1), CbReqBuf, 4, csdo_cb, tmo);
+        printf("cb csdoreq %d\n", CbReqRes);
+    }
+    if (CbEmcy) { CbEmcy = 0; printf("cb csdoemcy\n"); COEmcySet(&Node->Emcy, 0, NULL); }
     if (CbTmrTag >= 0) {
         AppTag[CbTmrTag] = CbTmrTag;
         printf("cb csdotimer %d\n", COTmrCreate(&Node->Tmr, CbTmrStart, 0, app_tmr, &AppTag[CbTmrTag]));
@@ -656,7 +682,7 @@ int main(void)
             step = 0;
         } else if (!strcmp(c, "lsspreset")) { LssHave = 1; LssBaud = U(1); LssNode = (uint8_t)U(2); step = 0;
         } else if (!strcmp(c, "init"))  { do_init(); Quiet = 0;
-        } else if (!strcmp(c, "restart")) { Tick = 0; HwCnt = 0; McbAct = 0; HccSub = 0; do_init();
+        } else if (!strcmp(c, "restart")) { Tick = 0; HwCnt = 0; McbAct = 0; HccSub = 0; HecSub = 0; do_init();
         } else if (!strcmp(c, "reinit")) {  /* the documented restart: stop, init and start again on the RAM as it is (no dictionary rebuild) */
             CONodeStop(Node); LockDepth = 0; RxHave = 0; CONodeInit(Node, &Spec);
         } else if (!strcmp(c, "start")) { CONodeStart(Node);
@@ -673,6 +699,7 @@ int main(void)
             uint32_t n = argc > 1 ? U(1) : 1;
             while (n--) { Tick++; (void)COTmrService(&Node->Tmr); }
         } else if (!strcmp(c, "tproc")) { COTmrProcess(&Node->Tmr);
+        } else if (!strcmp(c, "hbeventcb")) { HecSub = (int)strtol(ARG(1), NULL, 0); HecV1 = argc > 2 ? X(2) : 0; HecV2 = argc > 3 ? X(3) : HecV1;
         } else if (!strcmp(c, "hbchangecb")) { HccSub = (int)U(1); HccV1 = X(2); HccV2 = X(3);
         } else if (!strcmp(c, "modecb")) { McbMode = (int)U(1); McbAct = !strcmp(ARG(2), "setmode") ? 1 : !strcmp(ARG(2), "trigpdo") ? 2 : 0; McbArg = argc > 3 ? (int)U(3) : 0;
         } else if (!strcmp(c, "setmode")) { CONmtSetMode(&Node->Nmt, (CO_MODE)U(1));
@@ -736,6 +763,9 @@ int main(void)
                    CO_ERR e = COCSdoRequestDownload(cs, CO_DEV(X(2), X(3)), b, (uint32_t)sz, csdo_cb, U(5));
                    if (e == CO_ERR_NONE) { CsBuf[n] = b; CsLen[n] = (uint32_t)sz; }
                    printf("ret %d\n", (int)e); }
+        } else if (!strcmp(c, "csdocbreq")) { CbReqTmo = U(1); CbReqRes = -1;
+        } else if (!strcmp(c, "csdocbreqres")) { printf("ret %d\n", CbReqRes); CbReqRes = -1;
+        } else if (!strcmp(c, "csdocbemcy")) { CbEmcy = 1;
         } else if (!strcmp(c, "csdocbtimer")) { CbTmrStart = U(1); CbTmrTag = (int)U(2) & 255;     /* csdocbtimer start tag */
         } else if (!strcmp(c, "csdobuf")) { int n = (int)U(1); printf("ret "); hex(CsBuf[n], CsLen[n]); printf("\n");
         } else if (!strcmp(c, "fault")) {   /* fault what k [short] */
